@@ -132,7 +132,7 @@ impl Check for C14 {
     fn meta(&self) -> Meta {
         Meta {
             level: "exploration",
-            rule: "generated programs: 1-4 exchanges in both roles (send_request/send_response, send_data with buffers of any size incl. empty and multi-chunk, send_trailers, finish, streams abandoned after a drawn number of pieces, whole or split streams), server shutdown(n) calls (0-2, n in 0..3 or, one call in five, 2^60 / usize::MAX: 'let everything in flight through') and a client shutdown at drawn moments, builder options drawn (field-section limit, datagram, WebTransport, extended CONNECT, session limit, grease) x drawn write acceptance (down to 1 byte, header-splitting, copy_to_bytes), pends, stream credit, task order; every byte log of every stream either endpoint wrote is parsed by the reference RFC 9114 parser; a unidirectional stream that was opened and then abandoned without a byte, or that still carries no byte at the first exact quiescence of the run (every task parked, no write held back by the transport, nothing closed), never got a stream type; streams opened without end and a run that never comes to rest are reported; non-trivial = >= 1 request stream carried a complete HEADERS frame and >= 1 partial write or write pend happened; distinct = distinct schedule signatures",
+            rule: "generated programs: 1-4 exchanges in both roles (send_request/send_response, send_data with buffers of any size incl. empty and multi-chunk, send_trailers, finish, streams abandoned after a drawn number of pieces, whole or split streams), server shutdown(n) calls (0-2, n in 0..3 or, one call in five, 2^60 / usize::MAX: 'let everything in flight through') and a client shutdown at drawn moments, builder options drawn (field-section limit, datagram, WebTransport, extended CONNECT, session limit, grease) x drawn write acceptance (down to 1 byte, header-splitting, copy_to_bytes), pends, stream credit, task order; every byte log of every stream either endpoint wrote is parsed by the reference RFC 9114 parser; a unidirectional stream that was opened and then abandoned without a byte, or that still carries no byte at the first exact quiescence of the run (every task parked, no write held back by the transport, nothing closed), never got a stream type; streams opened without end and a run that never comes to rest are reported; in one run in eight the transport refuses one of an endpoint's first four unidirectional streams with a stream-level error; non-trivial = >= 1 request stream carried a complete HEADERS frame and >= 1 partial write or write pend happened; distinct = distinct schedule signatures",
             real: &["h3 client and server (all of h3/src)", "http, bytes, tokio::sync::mpsc"],
             stub: &["QUIC transport (SimQuic, both ends)", "executor (simexec)", "applications (generated call programs)"],
             assumptions: &["futures are awaited to completion (a cancelled send is outside the documented pattern), except the server's accept() which is cancelled for shutdown(n) as in the documented select pattern", "push is not implemented by h3: a push stream or PUSH_PROMISE on the wire is reported"],
@@ -145,6 +145,12 @@ impl Check for C14 {
         let mut cfg = NetCfg::drawn();
         if cfg.write_pend_den == 0 && !cfg.write_partial {
             cfg.write_partial = true; // this check is about how the transport takes the writes
+        }
+        // one run in eight: the transport refuses one of the first four unidirectional streams an endpoint asks for
+        // (a stream-level error, the connection is fine): h3 goes on without a QPACK or grease stream, and whatever
+        // it did open must still get its type
+        if draw(8) == 7 {
+            cfg.refuse_uni_open_at[draw_usize(2)] = Some(draw(4));
         }
         let out = run_exchanges(setup, cfg, chance(1, 3));
         if let Some(p) = &out.panic {
